@@ -53,11 +53,28 @@ theorem state_is_pre_state (st : EcuState) (c : Nat) (pre post : List Exchange) 
   rw [specRows_append, ← specState_eq_foldl]
   simp [specRows, himp]
 
-/-- only replies move the client-side state: an exchange without a response object leaves it alone -/
-theorem unanswered_keeps_state (st : EcuState) (e : Exchange) (h : e.out.response = none) : nextState st e = st := by
-  simp [nextState, h]
+/-- the client-side state is driven by positive replies only: it can change only when the exchange carries a
+    response object whose first byte is the positive response id of DiagnosticSessionControl, ECUReset,
+    ReadDataByIdentifier or SecurityAccess — never on a timeout, connection error, cancellation or negative reply -/
+theorem state_changes_only_on_positive_reply (st : EcuState) (e : Exchange) (hne : nextState st e ≠ st) :
+    ∃ sid rest, e.out.response = some (sid :: rest) ∧ (sid = 0x50 ∨ sid = 0x51 ∨ sid = 0x62 ∨ sid = 0x67) := by
+  unfold nextState at hne
+  cases hr : e.out.response with
+  | none => simp [hr] at hne
+  | some r =>
+    simp only [hr] at hne
+    cases r with
+    | nil => simp [updateState, classify] at hne
+    | cons sid rest =>
+      refine ⟨sid, rest, rfl, ?_⟩
+      by_cases h1 : sid = 0x50; · exact Or.inl h1
+      by_cases h2 : sid = 0x51; · exact Or.inr (Or.inl h2)
+      by_cases h3 : sid = 0x62; · exact Or.inr (Or.inr (Or.inl h3))
+      by_cases h4 : sid = 0x67; · exact Or.inr (Or.inr (Or.inr h4))
+      exfalso; apply hne
+      simp [updateState, classify, h1, h2, h3, h4]
 
-/-- ... and so does every negative response -/
+/-- in particular a negative response never changes it -/
 theorem negative_reply_keeps_state (st : EcuState) (rest : Bytes) : updateState st (0x7F :: rest) = st := by
   simp [updateState, classify]
 
@@ -130,6 +147,15 @@ theorem no_loss_on_cancel (h : List Exchange) (sched : List Choice) (hr : Choice
   refine ⟨?_, performed_prefix h sched⟩
   rw [afterDisconnect_eq]
   exact ((Inv.init h).exec sched hr).rows
+
+/-- the same with write failures (`OperationalError`, the row is re-queued at the tail) at any point of the schedule:
+    still every performed exchange exactly once — no loss, no duplicate — but the order may change (witness below) -/
+theorem no_loss_with_retries (h : List Exchange) (sched : List Choice) :
+    (afterDisconnect (exec (Sys.init h) sched)).Perm (specRows .init 0 (exec (Sys.init h) sched).done) ∧
+    PrefixOrCancelled h (exec (Sys.init h) sched).done := by
+  refine ⟨?_, performed_prefix h sched⟩
+  rw [afterDisconnect_eq]
+  exact ((PInv.init h).exec sched).rows
 
 /-- when the producer got through the whole history (whatever the consumer did meanwhile), the database holds
     exactly one row per logged exchange of the history, in order -/
@@ -237,5 +263,9 @@ example :
 /-- a write failure that re-queues a row at the tail *can* reorder rows (why `retry` is excluded above) -/
 example :
     afterDisconnect (exec (Sys.init [ex1, ex2]) [.prod, .prod, .get, .retry]) ≠ specRows .init 0 [ex1, ex2] := by decide
+
+/-- a cancellation that hits `disconnect()` itself while it waits for the queue is *not* covered by
+    `no_loss_on_cancel`: the model of that path loses the queued rows (known finding `c11:rows-lost:at=cancel-join`) -/
+example : afterInterruptedDisconnect (runAll [ex1, ex2]) ≠ specRows .init 0 [ex1, ex2] := by decide
 
 end Gallia.C11
